@@ -74,7 +74,7 @@ def gen_case(rng, big=False):
     if rest >= 8 and rng.random() < .4:
         lows = [i for i in range(min(rest - 4, 40)) if i not in ids]
         index_only = rng.sample(lows, min(len(lows), rng.choice([1, 1, 2])))
-        rest -= 2 * len(index_only)
+        rest -= 4 * len(index_only)  # the variable, its alias, and the two parameter slots of the by-reference helper
     return {"n_auto": max(rest, 0), "explicit": ids, "index_only": index_only, "n_abi": n_abi, "n_dyn": n_dyn, "n_mv": n_mv, "sub": sub, "version": version,
             "ss": rng.choice([None, False, True]), "fp": fp, "order": rng.randrange(10**9), "bytes_every": rng.choice([0, 3, 5])}
 
